@@ -22,7 +22,7 @@ fn step(s: u64) -> u64 {
 
 const PRIMES: [u64; 7] = [3, 5, 17, 257, 641, 65537, 6700417];
 
-pub const FLOAT_RANGES: [(f32, f32); 12] = [
+pub const FLOAT_RANGES: [(f32, f32); 30] = [
     (0.0, 1.0),
     (-1.0, 1.0),
     (-3.0, -1.0),
@@ -35,10 +35,35 @@ pub const FLOAT_RANGES: [(f32, f32); 12] = [
     (100.0, 100.25),
     (-1.0000001, -1.0),
     (16777216.0, 16777218.0),
+    // an end of zero of either sign: its predecessor is the smallest
+    // negative subnormal
+    (-1.0, 0.0),
+    (-1.0, -0.0),
+    (-1.0e-30, 0.0),
+    (-1.0e-45, 0.0),
+    // subnormal ends
+    (0.0, 1.0e-45),
+    (1.0e-40, 2.0e-40),
+    (-1.0e-45, 1.0e-45),
+    // a power-of-two end reached by rounding: the predecessor is in the
+    // binade below
+    (1.9999999, 2.0),
+    (0.99999994, 1.0),
+    (-2.0, -1.9999999),
+    (0.5, 1.0),
+    // odd widths in ulps
+    (3.0, 3.0000007),
+    (1.0e10, 1.0000005e10),
+    // the widest finite ranges; a width that overflows
+    (-1.0e38, 1.0e38),
+    (0.0, f32::MAX),
+    (-f32::MAX, f32::MAX),
+    (f32::MIN_POSITIVE, 2.0 * f32::MIN_POSITIVE),
+    (-255.0, 0.5),
 ];
 
 pub fn run(cfg: &Cfg, rep: &mut Report) {
-    rep.rule = "period: the step map observed on the 64 unit states and on random/structured pairs (linearity), order computed from the observed matrix; float ranges: every one of the 2^23 mantissas a float draw can consume (state solved for by GF(2) inverse of the observed step matrix, verified through the real call) × 12 ranges; integers and Bernoulli on solved and random states; disk/ball/circle/sphere on random states and on states solved so that consecutive draws hit the centre; composite distributions against scalar draws from a cloned generator; non-trivial = all; distinct by hash of (state, distribution)".into();
+    rep.rule = "period: the step map observed on the 64 unit states and on random/structured pairs (linearity), order computed from the observed matrix; float ranges: every one of the 2^23 mantissas a float draw can consume (state solved for by GF(2) inverse of the observed step matrix, verified through the real call) × 12 ranges; integers and Bernoulli on solved and random states; float ranges also random (any sign and exponent of the start, widths of chosen ulp counts) × the mantissas where rounding bites; disk/ball/circle/sphere on random states and on states solved so that consecutive draws hit the centre of the disk, come within 2e-6 of the centre of the ball, or land on the rim; composite distributions against scalar draws from a cloned generator; non-trivial = all; distinct by hash of (state, distribution)".into();
     rep.assumptions.push("the period argument is conditional on linearity of the step map over GF(2), which is monitored on every pair drawn, not proved".into());
 
     rep.pin("F7a.float_sample_equals_end", {
@@ -49,7 +74,7 @@ pub fn run(cfg: &Cfg, rep: &mut Report) {
         Err(m) => Err(format!("UnitCircle.sample(state 0x5d8965c3f8ffe4ce) panicked: {m}")),
         Ok(v) => {
             let l = ((v[0] as f64).powi(2) + (v[1] as f64).powi(2)).sqrt();
-            if (l - 1.0).abs() <= 1e-3 { Ok(()) } else { Err(format!("UnitCircle.sample(state 0x5d8965c3f8ffe4ce) = {v:?}, length {l}")) }
+            if (l - 1.0).abs() <= 1e-5 { Ok(()) } else { Err(format!("UnitCircle.sample(state 0x5d8965c3f8ffe4ce) = {v:?}, length {l}")) }
         }
     });
 
@@ -71,7 +96,10 @@ pub fn run(cfg: &Cfg, rep: &mut Report) {
         rep.info("step_matrix_invertible", minv.is_some());
         rep.info("M^(2^64-1)==I", order_ok);
         rep.info("M^((2^64-1)/p)!=I for all prime factors p", proper);
-        if !(zero_fixed && minv.is_some() && order_ok && proper) {
+        // what the step does to the all-zero state is nobody's business (the
+        // property speaks of non-zero seeds): recorded, not judged
+        rep.info("f(0)==0", zero_fixed);
+        if !(minv.is_some() && order_ok && proper) {
             rep.violation(
                 "rng.period_not_full",
                 format!(
@@ -94,6 +122,16 @@ pub fn run(cfg: &Cfg, rep: &mut Report) {
         hs.u64(a).u64(b);
         rep.case(hs.get(), true);
         let (fa, fb, fab) = (step(a), step(b), step(a ^ b));
+        {
+            // the returned bits are the new state (what makes the observed
+            // outputs a description of the state sequence)
+            let mut g = Xorshift64(a);
+            let out = g.next_bits();
+            if g.0 != out {
+                rep.violation("rng.step_not_linear", format!("next_bits() from state {a:#x} returned {out:#x} but left the state at {:#x}: the outputs do not describe the state sequence", g.0), Json::obj().set("a", format!("{a:#x}")));
+                return;
+            }
+        }
         if fab != fa ^ fb || m.apply(a) != fa {
             rep.violation("rng.step_not_linear", format!("f({a:#x}) ^ f({b:#x}) = {:#x} but f(a^b) = {fab:#x}; observed matrix gives {:#x} for a", fa ^ fb, m.apply(a)), Json::obj().set("a", format!("{a:#x}")).set("b", format!("{b:#x}")));
             return;
@@ -140,6 +178,7 @@ pub fn run(cfg: &Cfg, rep: &mut Report) {
             // three states per mantissa: random low bits, all-ones and
             // all-zeros below the mantissa (a sampler that looks at more
             // than the 23 mantissa bits has its extremes there)
+            let mut first_variant = [0u32; FLOAT_RANGES.len()];
             for variant in 0..3 {
             let low = match variant {
                 0 => rng.u64() & ((1 << 41) - 1),
@@ -157,6 +196,13 @@ pub fn run(cfg: &Cfg, rep: &mut Report) {
                 if g.0 != y {
                     rep.violation("rng.preimage_mismatch", format!("state {s:#x} did not produce the solved-for output {y:#x}"), Json::obj().set("state", format!("{s:#x}")));
                     return;
+                }
+                if variant == 0 {
+                    first_variant[ri] = x.to_bits();
+                } else if first_variant[ri] != x.to_bits() {
+                    // the sweep is exhaustive only if a float draw looks at
+                    // nothing but the top 23 output bits
+                    rep.count("float_sample.depends_on_bits_below_the_top_23(exhaustive claim void)");
                 }
                 if !(x >= a && x < b) {
                     rep.violation(
@@ -196,9 +242,79 @@ pub fn run(cfg: &Cfg, rep: &mut Report) {
     });
     rep.exhaustive.push(format!("all 2^23 mantissas a float draw can consume × 3 low-bit patterns (random, all ones, all zeros) × {} ranges × 7 Bernoulli parameters", FLOAT_RANGES.len()));
 
+    // ---- (B2) random ranges × the mantissas where rounding bites
+    rep.run_stream(cfg, 6, "float_random_ranges", cfg.n(1_000_000, 100_000_000), |rng, _, rep| {
+        // start of any sign and exponent; width a chosen number of ulps, or
+        // a random factor
+        let start = {
+            let e = rng.int(-120, 120) as i32;
+            let m = 1.0 + rng.f32_in(0.0, 1.0);
+            let v = m * 2.0f32.powi(e);
+            match rng.below(5) {
+                0 => 0.0,
+                1 | 2 => -v,
+                _ => v,
+            }
+        };
+        let end = match rng.below(3) {
+            0 => {
+                let k = rng.pick(&[1u32, 2, 3, 5, 7, 8, 9, 15, 16, 17, 255, 256, 257, (1 << 23) - 1, 1 << 23, (1 << 23) + 1, (1 << 24) - 1]);
+                let mut e = start;
+                for _ in 0..k.min(64) {
+                    e = crate::next_up(e);
+                }
+                if k > 64 {
+                    // k ulps up, by bit pattern (same sign region only)
+                    let b = start.to_bits();
+                    e = if start >= 0.0 { f32::from_bits(b.wrapping_add(k)) } else { f32::from_bits(b.wrapping_sub(k).max(0x8000_0000)) };
+                    if start < 0.0 && b.wrapping_sub(k) < 0x8000_0000 {
+                        e = 0.0;
+                    }
+                }
+                e
+            }
+            1 => start + start.abs().max(1e-30) * rng.log_f32(1e-6, 1e6),
+            _ => start + rng.log_f32(1e-30, 1e30),
+        };
+        if !(end > start) || !end.is_finite() {
+            return;
+        }
+        let mant: u64 = match rng.below(9) {
+            0 => 0,
+            1 => 1,
+            2 => 0x3fffff,
+            3 => 0x400000,
+            4 => 0x400001,
+            5 => 0x7ffffe,
+            6 | 7 => 0x7fffff,
+            _ => rng.below(1 << 23),
+        };
+        let y = (mant << 41) | (rng.u64() & ((1 << 41) - 1));
+        if y == 0 {
+            return;
+        }
+        let s = minv.apply(y);
+        let mut hs = Hasher::new();
+        hs.u64(s).f32(start).f32(end);
+        rep.case(hs.get(), true);
+        let x = Uniform(start..end).sample(&mut Xorshift64(s));
+        rep.count("float_random_range_samples");
+        if mant == 0x7fffff {
+            rep.count("float_random_range_samples.top_mantissa");
+        }
+        if !(x >= start && x < end) {
+            rep.violation(
+                if x == end { "rng.float_sample_equals_end" } else { "rng.float_sample_out_of_range" },
+                format!("Uniform({start:?}..{end:?}).sample with state {s:#x} (mantissa {mant:#x}) = {x:?}: not in the half-open range"),
+                Json::obj().set("state", format!("{s:#x}")).set("range", format!("{}..{}", f32s(start), f32s(end))).set("mantissa", format!("{mant:#x}")),
+            );
+        }
+    });
+
     // ---- (C) integers
     rep.run_stream(cfg, 3, "integers", cfg.n(3_000_000, 300_000_000), |rng, i, rep| {
-        let (a, b) = match rng.below(6) {
+        let (a, b) = match rng.below(7) {
+            6 => rng.pick(&[(0, i32::MAX), (i32::MIN, -1), (-(1 << 30), (1 << 30) - 1), (i32::MAX - 1, i32::MAX), (i32::MIN, i32::MIN + 1), (-1, i32::MAX - 1), (1, 2), (0, 1)]),
             0 => (0, 1 + rng.below(1000) as i32),
             1 => (-(rng.below(1000) as i32) - 1, rng.below(1000) as i32 + 1),
             2 => (i32::MIN, i32::MIN + 1 + rng.below(1 << 30) as i32),
@@ -221,7 +337,14 @@ pub fn run(cfg: &Cfg, rep: &mut Report) {
         // state: random, or solved so that the low 32 output bits are an extreme
         let s = if i % 3 == 0 {
             let low = rng.pick(&[0u32, 1, u32::MAX, 0x8000_0000, 0x7FFF_FFFF, (b.wrapping_sub(a)) as u32, (b.wrapping_sub(a)) as u32 - 1]);
-            let y = (rng.u64() << 32) | low as u64;
+            // the extreme pattern in the low half, the high half, both, or
+            // straddling the middle: whichever 32 bits the sampler reads
+            let y = match rng.below(4) {
+                0 => (rng.u64() << 32) | low as u64,
+                1 => ((low as u64) << 32) | rng.u32() as u64,
+                2 => ((low as u64) << 32) | low as u64,
+                _ => ((low as u64) << 16) | (rng.u64() & 0xFFFF_0000_0000_FFFF),
+            };
             minv.apply(y | if y == 0 { 1 } else { 0 })
         } else {
             rng.u64() | 1
@@ -244,24 +367,31 @@ pub fn run(cfg: &Cfg, rep: &mut Report) {
     let m2 = m.mul(&m);
     let m3 = m2.mul(&m);
     // states whose next two (three) draws consume given mantissas
-    let solve_states = |mants: &[u64]| -> Option<(u64, Vec<u64>)> {
+    let solve_states_top = |mants: &[u64], drop_low: usize| -> Option<(u64, Vec<u64>)> {
         let mats = [&m, &m2, &m3];
         let mut eqs = vec![];
         for (k, &mant) in mants.iter().enumerate() {
-            for bit in 0..23 {
+            for bit in drop_low..23 {
                 eqs.push((mats[k].row(41 + bit), (mant >> bit) & 1 == 1));
             }
         }
         gf2::solve(&eqs)
     };
+    let solve_states = |mants: &[u64]| solve_states_top(mants, 0);
     let centre2 = solve_states(&[0x400000, 0x400000]);
     rep.info("circle_centre_states_log2", centre2.as_ref().map(|c| c.1.len() as i64).unwrap_or(-1));
+    // Three draws pinned to the centre: 69 equations in 64 unknowns have no
+    // solution, so only the top 20 bits of each mantissa are prescribed (60
+    // equations): all three coordinates within 2^-20 of 0, i.e. the point is
+    // within 2e-6 of the centre of the ball.
     let mut near3: Vec<(u64, Vec<u64>)> = vec![];
-    for d in [[0i64, 0, 0], [1, 0, 0], [0, 1, 0], [0, 0, 1], [-1, 1, 0], [1, 1, 1], [-1, -1, -1], [1, -1, 1]] {
-        if let Some(sol) = solve_states(&[(0x400000 + d[0]) as u64, (0x400000 + d[1]) as u64, (0x400000 + d[2]) as u64]) {
+    for d in [[0i64, 0, 0], [8, 0, 0], [0, 8, 0], [0, 0, 8], [-8, 8, 0], [8, 8, 8], [-8, -8, -8], [8, -8, 8]] {
+        if let Some(sol) = solve_states_top(&[(0x400000 + d[0]) as u64, (0x400000 + d[1]) as u64, (0x400000 + d[2]) as u64], 3) {
             near3.push(sol);
         }
     }
+    // two draws on the rim of the disk: mantissas 0 and 0x400000 give (−1, 0)
+    let rim2 = solve_states(&[0, 0x400000]);
     rep.info("sphere_near_centre_solution_sets", near3.len());
     rep.run_stream(cfg, 4, "disk_ball_circle_sphere", cfg.n(2_000_000, 200_000_000), |rng, i, rep| {
         let pick_from = |rng: &mut Rng, sol: &(u64, Vec<u64>)| -> u64 {
@@ -279,6 +409,7 @@ pub fn run(cfg: &Cfg, rep: &mut Report) {
                 let k = rng.usize(near3.len());
                 (pick_from(rng, &near3[k]), "sphere_near_centre")
             }
+            2 if rim2.is_some() && i % 8 == 2 => (pick_from(rng, rim2.as_ref().unwrap()), "disk_rim"),
             _ => (rng.u64() | 1, "random"),
         };
         if s == 0 {
@@ -290,6 +421,9 @@ pub fn run(cfg: &Cfg, rep: &mut Report) {
         rep.count(&format!("shape_states.{solved}"));
         let cj = || Json::obj().set("state", format!("{s:#x}")).set("state_kind", solved);
         let len2 = |v: &[f32]| v.iter().map(|x| (*x as f64).powi(2)).sum::<f64>().sqrt();
+        // |v|² evaluated in f64 is exact to 1e-16; an f32 rejection test
+        // |v|² ≤ 1 can be off by the rounding of its own sum (≈ 2·2^-23)
+        let inside = |v: &[f32]| v.iter().map(|x| (*x as f64).powi(2)).sum::<f64>() <= 1.0 + 5e-7;
         let r = catch(|| {
             (
                 VectorsOnUnitDisk.sample(&mut Xorshift64(s)).0,
@@ -304,7 +438,7 @@ pub fn run(cfg: &Cfg, rep: &mut Report) {
                 return;
             }
             Ok((d, dp, b, bp)) => {
-                if !(len2(&d) <= 1.0 + 1e-6 && len2(&b) <= 1.0 + 1e-6) || d != dp || b != bp {
+                if !(inside(&d) && inside(&b)) || d != dp || b != bp {
                     rep.violation("rng.disk_ball_outside", format!("disk sample {d:?} (|v|={}) / ball sample {b:?} (|v|={}); point variants {dp:?} {bp:?}", len2(&d), len2(&b)), cj());
                     return;
                 }
@@ -317,7 +451,7 @@ pub fn run(cfg: &Cfg, rep: &mut Report) {
             }
             Ok(c) => {
                 let l = len2(&c);
-                if !((l - 1.0).abs() <= 1e-3) {
+                if !((l - 1.0).abs() <= 1e-5) {
                     rep.violation(if solved == "circle_centre" { "rng.unit_circle_zero_vector" } else { "rng.unit_circle_not_unit" }, format!("UnitCircle.sample = {c:?}, length {l}"), cj());
                     return;
                 }
@@ -330,7 +464,7 @@ pub fn run(cfg: &Cfg, rep: &mut Report) {
             }
             Ok(c) => {
                 let l = len2(&c);
-                if !((l - 1.0).abs() <= 1e-3) {
+                if !((l - 1.0).abs() <= 1e-5) {
                     rep.violation("rng.unit_sphere_not_unit", format!("UnitSphere.sample = {c:?}, length {l}"), cj());
                     return;
                 }
@@ -367,8 +501,45 @@ pub fn run(cfg: &Cfg, rep: &mut Report) {
             );
             return;
         }
+        // the generator ends in the same state whichever way the three
+        // components were drawn (no extra, no missing draw)
+        let end_state = |f: &dyn Fn(&mut Xorshift64)| {
+            let mut g = Xorshift64(s);
+            f(&mut g);
+            g.0
+        };
+        let want = end_state(&|g| {
+            Uniform(a..b).sample(g);
+            Uniform(c..d).sample(g);
+            Uniform(e..f).sample(g);
+        });
+        let got_arr = end_state(&|g| {
+            Uniform([a, c, e]..[b, d, f]).sample(g);
+        });
+        let got_vec = end_state(&|g| {
+            let _: Vec3 = Uniform(vec3(a, c, e)..vec3(b, d, f)).sample(g);
+        });
+        if got_arr != want || got_vec != want {
+            rep.violation("rng.composite_component_order", format!("after a 3-component draw the generator is at {got_arr:#x} (array) / {got_vec:#x} (vector), after three scalar draws at {want:#x}"), Json::obj().set("state", format!("{s:#x}")));
+            return;
+        }
+        // samples(): an iterator of k items advances the caller's generator
+        // exactly as k calls of sample() do
+        let k = 1 + rng.usize(5);
+        let (mut g1, mut g2) = (Xorshift64(s), Xorshift64(s));
+        let it: Vec<f32> = Uniform(a..b).samples(&mut g1).take(k).collect();
+        let one: Vec<f32> = (0..k).map(|_| Uniform(a..b).sample(&mut g2)).collect();
+        if bits(&it) != bits(&one) || g1.0 != g2.0 {
+            rep.violation("rng.composite_component_order", format!("samples().take({k}) gives {it:?} and leaves the generator at {:#x}; {k} calls of sample() give {one:?} and {:#x}", g1.0, g2.0), Json::obj().set("state", format!("{s:#x}")));
+            return;
+        }
+        rep.count("samples_iterator_checks");
         rep.count("composite_checks");
     });
+    // the documented default
+    if Xorshift64::default().0 != Xorshift64::DEFAULT_SEED || Xorshift64::DEFAULT_SEED == 0 || Xorshift64::from_seed(7).0 != 7 {
+        rep.violation("rng.not_deterministic", format!("Xorshift64::default() has state {:#x}, DEFAULT_SEED is {:#x}", Xorshift64::default().0, Xorshift64::DEFAULT_SEED), Json::obj());
+    }
 
     rep.floor("linearity_pairs", 1_000_000);
     rep.floor("preimages_verified", 500_000);
@@ -376,5 +547,10 @@ pub fn run(cfg: &Cfg, rep: &mut Report) {
     rep.floor("int_samples", 1_000_000);
     rep.floor("shape_samples", 500_000);
     rep.floor("shape_states.circle_centre", 100_000);
+    rep.floor("shape_states.sphere_near_centre", 100_000);
+    rep.floor("shape_states.disk_rim", 50_000);
+    rep.floor("float_random_range_samples", 500_000);
+    rep.floor("float_random_range_samples.top_mantissa", 100_000);
+    rep.floor("samples_iterator_checks", 100_000);
     rep.floor("composite_checks", 200_000);
 }
